@@ -44,7 +44,11 @@ class P:
 
         def ok(c, o):
             return o.startswith(("ok", "skip"))
-        return [{"name": "positions", "harness": "pos", "driver": None, "cases": cases, "impl_ok": ok,
+        # the End() methods of the word parts recomputed by their model (Ast/Ends.v) from the positions stored in the parts
+        epart = {"name": "word-part-ends", "harness": "ends", "driver": "ends", "cases": cases, "compare": lambda c, i, m: True,
+                 "impl_ok": lambda c, o: o.startswith(("ok ", "skip")), "nontrivial": lambda c: len(c) >= 6,
+                 "distribution": {"sources": len(cases)}}
+        return [epart, {"name": "positions", "harness": "pos", "driver": None, "cases": cases, "impl_ok": ok,
                  "nontrivial": lambda c: len(c) >= 6,
                  "distribution": {"generated": n, "short_strings": len(cases) - n - len(CORPUS)}}]
 
@@ -64,6 +68,8 @@ class P:
         return None
 
     def shrink(self, u, C):
+        if u.get("part") == "word-part-ends":
+            return u
         k0 = ":".join(u["impl"].split(":")[1:3])
 
         def pred(t):
@@ -74,6 +80,15 @@ class P:
 
     def replay(self, payload, C):
         c = payload["case"]
+        if payload.get("part") == "word-part-ends":
+            i = C.run_harness("ends", [c])[0]
+            m, j = C.run_driver("ends", [c], [i])[0]
+            print("case :", self.describe("word-part-ends", c), "\nimpl :", i[:600], "\njudge:", j)
+            if j.startswith("bad") or not i.startswith(("ok ", "skip")):
+                print("VIOLATION property=C04 replay=(replayed)")
+                return 1
+            print("replay: property holds on this case now")
+            return 0
         o = C.run_harness("pos", [c])[0]
         print("case :", self.describe(None, c))
         print("impl :", o[:400])
